@@ -167,7 +167,7 @@ func init() {
 				}
 				trafficOnly := sequential
 				for _, op := range ops {
-					if !(op == "round" || strings.HasPrefix(op, "up") || strings.HasPrefix(op, "down")) {
+					if !(op == "round" || strings.HasPrefix(op, "up") || strings.HasPrefix(op, "down") || strings.HasPrefix(op, "zero")) {
 						trafficOnly = false
 					}
 				}
@@ -222,6 +222,27 @@ func init() {
 								mm.users[arr16(uidOf(u))].upCredit = 5000000
 							} else {
 								mgr.WriteUserInfo(usermanager.UserInfo{UID: uidOf(u), UpCredit: i64(5000000)})
+							}
+						case strings.HasPrefix(op, "zeroup"), strings.HasPrefix(op, "zerodown"):
+							// an administrator sets the credit to exactly what has been carried so far and not yet
+							// charged: the next round brings it to exactly zero (sequential histories only)
+							up, down := tapVol()
+							if strings.HasPrefix(op, "zeroup") {
+								fmt.Sscanf(op, "zeroup%d", &u)
+								upCredit = up[u]
+								if mm != nil {
+									mm.users[arr16(uidOf(u))].upCredit = up[u]
+								} else {
+									mgr.WriteUserInfo(usermanager.UserInfo{UID: uidOf(u), UpCredit: i64(up[u])})
+								}
+							} else {
+								fmt.Sscanf(op, "zerodown%d", &u)
+								downCredit = down[u]
+								if mm != nil {
+									mm.users[arr16(uidOf(u))].downCredit = down[u]
+								} else {
+									mgr.WriteUserInfo(usermanager.UserInfo{UID: uidOf(u), DownCredit: i64(down[u])})
+								}
 							}
 						case strings.HasPrefix(op, "delete"):
 							fmt.Sscanf(op, "delete%d", &u)
@@ -377,6 +398,13 @@ func init() {
 			{Scenario: "panel.usage", Params: vx.P("sessions", "0.1,0.2", "ops", "up0.1:10,up0.2:7,close0.1,round,close0.2,round", "seq", "1"), Bound: 0, Weight: 3},
 			{Scenario: "panel.usage", Params: vx.P("sessions", "0.1", "ops", "up0.1:10,round,close0.1,admit0.2,up0.2:9,close0.2", "seq", "1", "db", "bolt"), Bound: 0, Weight: 3},
 			{Scenario: "panel.usage", Params: vx.P("sessions", "0.1", "ops", "up0.1:300,down0.1:50,round", "upcredit", "200", "seq", "1", "db", "bolt"), Bound: 0, Weight: 3},
+			// credit spent to exactly zero (by a round that charges precisely what is left)
+			{Scenario: "panel.usage", Params: vx.P("sessions", "0.1", "ops", "up0.1:40,down0.1:30,zerodown0,round", "seq", "1", "db", "bolt"), Bound: 0, Weight: 3},
+			{Scenario: "panel.usage", Params: vx.P("sessions", "0.1", "ops", "up0.1:40,down0.1:30,zeroup0,round", "seq", "1", "db", "bolt"), Bound: 0, Weight: 3},
+			{Scenario: "panel.usage", Params: vx.P("sessions", "0.1", "ops", "down0.1:30,zerodown0,round", "seq", "1"), Bound: 0, Weight: 3},
+			// the last session is gone before the round whose verdict is TERMINATE
+			{Scenario: "panel.usage", Params: vx.P("sessions", "0.1", "ops", "up0.1:300,close0.1,round", "upcredit", "200", "seq", "1", "db", "bolt"), Bound: 0, Weight: 3},
+			{Scenario: "panel.usage", Params: vx.P("sessions", "0.1", "ops", "up0.1:30,close0.1,delete0,round", "seq", "1", "db", "bolt"), Bound: 0, Weight: 3},
 			{Scenario: "panel.usage", Params: vx.P("sessions", "0.1", "ops", "down0.1:300,up0.1:50,round", "downcredit", "200", "seq", "1", "db", "bolt"), Bound: 0, Weight: 3},
 			{Scenario: "panel.usage", Params: vx.P("sessions", "0.1,1.1", "ops", "up0.1:300,down0.1:50,up1.1:20,down1.1:30,round,up1.1:5,round", "upcredit", "200", "seq", "1", "db", "bolt"), Bound: 0, Weight: 3},
 			{Scenario: "panel.usage", Params: vx.P("sessions", "0.1", "ops", "up0.1:300,round,close0.1,admit0.2", "upcredit", "200", "delay", "1"), Bound: b(2, 3), Weight: 8},
@@ -385,6 +413,11 @@ func init() {
 			{Scenario: "panel.usage", Params: vx.P("sessions", "0.1", "ops", "up0.1:300,round", "upcredit", "200", "db", "bolt"), Bound: b(1, 2), Weight: 7},
 			{Scenario: "panel.usage", Params: vx.P("sessions", "0.1", "ops", "up0.1:10,round,expire0", "db", "bolt"), Bound: b(1, 2), Weight: 7},
 			{Scenario: "panel.usage", Params: vx.P("sessions", "0.1", "ops", "up0.1:10,round,delete0", "db", "bolt"), Bound: b(1, 2), Weight: 7},
+		}
+		for _, f := range []string{"slow", "error", "slow-error", "none"} {
+			for _, at := range []string{"1", "3"} {
+				jobs = append(jobs, vx.Job{Scenario: "panel.loop", Params: vx.P("fault", f, "at", at), Bound: b(0, 1), Weight: 4})
+			}
 		}
 		for i := range jobs {
 			jobs[i].BudgetS = b(100, 900)
